@@ -41,7 +41,7 @@ class C08(Prop):
             "(scenario, allocator, k) with k >= 2 (the suite only ever fails k = 1), distinct by construction per distinct scenario")
     ASSUMPTIONS = ["the fault window is exactly the call under test; set-up, comparison prints and tear-down run unfaulted",
                    "only core API calls named by the property; Utils functions are outside its statement"]
-    REQUIRED_CLASSES = ["parse_long_number_literal", "op:" + o for o in OPS] + ["k>=2", "custom_hooks", "default_allocator", "print_several_KB"]
+    REQUIRED_CLASSES = ["op:" + o for o in OPS] + ["parse_long_number_literal", "k>=2", "custom_hooks", "default_allocator", "print_several_KB"]
 
     def budget(self, tier):
         return {"workers": 14, "examples": 2500 if tier == "quick" else 15000}
